@@ -14,6 +14,7 @@ use utils::*;
 mod c05;
 mod c06;
 mod c12;
+mod c13;
 mod c17;
 mod canon;
 mod framework;
@@ -33,12 +34,13 @@ use world::*;
 
 fn registry() -> Vec<Arc<dyn Check>> {
     let mut v: Vec<Arc<dyn Check>> = vec![Arc::new(c05::C05)];
-    for id in ["C01", "C02", "C03", "C04", "C07", "C08", "C09", "C10", "C11", "C15", "C16", "C19"] {
+    for id in ["C01", "C02", "C03", "C04", "C07", "C08", "C09", "C10", "C11", "C14", "C15", "C16", "C19"] {
         v.push(Arc::new(stepchecks::StepCheck { id, quick: 30_000, thorough: 1_500_000 }));
     }
     v.push(Arc::new(c06::C06));
     v.push(Arc::new(c17::C17));
     v.push(Arc::new(c12::C12));
+    v.push(Arc::new(c13::C13));
     v
 }
 
